@@ -440,8 +440,11 @@ impl<W: Write> TableWriter<W> {
 		// Update metadata
 		self.update_meta_properties(&key, val);
 
-		// Flush block if it exceeds target size
-		if self.data_block.as_ref().unwrap().size_estimate() > self.opts.block_size {
+		// Flush block if it exceeds target size. An empty block is never flushed: its
+		// fixed overhead alone can exceed a very small `block_size`, and a block needs
+		// a last key for its index entry.
+		let dblock = self.data_block.as_ref().unwrap();
+		if dblock.entries() > 0 && dblock.size_estimate() > self.opts.block_size {
 			self.write_data_block(&enc_key)?;
 		}
 
